@@ -10,6 +10,6 @@ CONSTANTS
   MaxVars = 0
 SPECIFICATION TraceSpec
 CONSTRAINT HighWater
-INVARIANTS LimitsSound ParseAgrees
+INVARIANTS LimitsSound ParseAgrees PrintPreservesValue
 POSTCONDITION TraceAccepted
 CHECK_DEADLOCK FALSE
